@@ -588,6 +588,23 @@ namespace
                 }
                 return;
             }
+            if (e.elem == 1 && rng.chance(1, 5))
+            {
+                // a window of consecutive indices that slides across the wrap point of the 8-bit index type: 250..255,0,1,.. for an unsigned index
+                // batch, 120..127,-128,-127,.. for a signed one. Consecutive modulo 2^8, but not adjacent in memory (the whole range of an 8-bit
+                // index still fits the arena; for wider index types it would not).
+                op.idx_family = "wrap-window";
+                const int64_t wrap = e.idx_unsigned ? 256 : 128;
+                const int64_t first = wrap - 1 - (int64_t)rng.below((uint64_t)std::min(L - 1, 127)); // at least one lane before and one after the wrap
+                for (int i = 0; i < L; ++i)
+                {
+                    int64_t v = first + i;
+                    if (v >= wrap)
+                        v -= 256;
+                    op.idx[(size_t)i] = v;
+                }
+                return;
+            }
             unsigned fam = (unsigned)rng.below(6);
             if (fam == 3 && e.idx_unsigned)
                 fam = 5;
